@@ -30,6 +30,7 @@ var Properties = map[string][]string{
 	"C01": {"C01.a", "C01.b", "C01.d", "C05.b", "C10.scan", "C03.d"},
 	"C02": {"C02.a"},
 	"C03": {"C03.a", "C03.c", "C03.d"},
+	"C09": {"C09", "C01.a", "C01.b", "C16.c"},
 	"C10": {"C07", "C10.scan", "C10.b", "C10.f", "C10.g", "C03.c"},
 	"C05": {"C02.a", "C05.b", "C05.c", "C01.d"},
 	"C07": {"C07"},
@@ -38,7 +39,7 @@ var Properties = map[string][]string{
 	"C11": {"C11.c", "C11.g", "C01.d"},
 	"C12": {"C12.b", "C16.d"},
 	"C13": {"C13.a", "C13.c", "C10.f"},
-	"C17": {"C17.a", "C17.b", "C17.c", "C06.e", "C17.e", "C11.c"},
+	"C17": {"C17.a", "C17.b", "C17.c", "C06.e", "C17.e", "C11.c", "C11.g"},
 	"C16": {"C16.a", "C16.b", "C16.c", "C16.d"},
 	"C15": {"C15.b", "C15.d", "C12.b"},
 	"C14": {"C14.abc", "C14.d", "C14.e"},
